@@ -464,6 +464,36 @@ def tile_templates(crate, root):
                         if not st_ok and start == ("arg", 2) and an.f["kind"] == "Closure":
                             st_ok = _param_is_step_item(crate, an, c, n)
                         out.append(("start", st_ok, ev["span"], "range start is neither k * chunk nor an item of (0..n).step_by(chunk)"))
+            # template 4: a strided worker `for u in (start..n).step_by(stride)` covers the rows start, start + stride, ..;
+            # the workers tile 0..n exactly when they are started for start = 0, 1, .., stride - 1
+            if ev["key"] == ITER_NEXT and an.f["kind"] == "Closure":
+                d_ = fx.iter_desc(ev)
+                if d_ and d_ != "CYCLE" and d_[0] == "call" and d_[1].endswith("Iterator::step_by") and len(d_[3]) == 2 \
+                        and d_[3][0][0] == "agg" and d_[3][0][1] == "adt" and d_[3][0][2][0].endswith("ops::range::Range"):
+                    lo_, st_ = d_[3][0][3][0], d_[3][1]
+
+                    def cap_(t):
+                        return (t[0] == "field" and t[1] == ("arg", 1)) or (t[0] == "mem" and t[1].startswith(("A1.", "L1.")) and t[3] is None)
+                    if cap_(lo_) and cap_(st_):
+                        from .closures import capture_map
+                        cm_ = capture_map(crate, an)
+                        ok_ = False
+                        if cm_ is not None:
+                            plo = [pv for pv, cv in cm_.valmap if cv == lo_]
+                            pst = [pv for pv, cv in cm_.valmap if cv == st_]
+                            pfx_ = crate.fx(cm_.pan.path)
+                            for a_ in plo:
+                                site_, path_ = payload_of(a_)
+                                if site_ is None:
+                                    continue
+                                e2_ = pfx_.an_call_at(site_[1])
+                                dd = pfx_.iter_desc(e2_) if e2_ else None
+                                if dd and dd != "CYCLE" and dd[0] == "agg" and dd[1] == "adt" and dd[2][0].endswith("ops::range::Range") \
+                                        and dd[3][0] == ("const", "usize", 0) and path_ == () and any(
+                                            b_ == dd[3][1] or _same_value(crate, cm_.pan, b_, dd[3][1]) for b_ in pst):
+                                    ok_ = True
+                        out.append(("stride", ok_, ev["span"], "a worker strides over the rows (start..n).step_by(s), but the workers are not "
+                                    "started for start = 0, 1, .., s - 1: rows whose index has another residue mod s are never visited"))
             # template 3: rows.chunks(c)
             if ev["key"] in ("slice::chunks", "slice::chunks_mut") and len(ev["args"]) == 2:
                 dc = _chunk_def(crate, an, ev["args"][1])
